@@ -240,6 +240,72 @@ def validator_guard_rule(rep, u, lab):
     return n
 
 
+def label_helpers_rule(rep, u):
+    """The two flat label-sequence helpers, evaluated over every sequence of 1..4 bytes drawn from the five byte classes
+    {0x00 end, 0x01/0x02 short label, 0x40/0x80 extension, 0xC0 pointer, 0x61 data}:
+      * SequenceOfLabelsGetSize: on success the reported size is <= buf_size (its callers advance by it);
+      * SequenceOfLabelsToDomainName: for every output capacity the function's own precondition admits, every store
+        (the label copies, the '.' separators and the terminator) lies inside name[0 .. name_buf_size)."""
+    import itertools
+    n = 0
+    fs, ft = u.fn("SequenceOfLabelsGetSize"), u.fn("SequenceOfLabelsToDomainName")
+    if fs is None or ft is None:
+        raise driver.AnalysisBroken("anchors SequenceOfLabelsGetSize / SequenceOfLabelsToDomainName vanished")
+    rep.functions.update([fs.name, ft.name])
+    BUF, NAME, OUT = 0x10000, 0x20000, 0x30000
+    classes = (0x00, 0x01, 0x02, 0x40, 0xC0, 0x61)
+    bad = und = None
+    for size in (1, 2, 3, 4):
+        for seq in itertools.product(classes, repeat=size):
+            pe = r_stride.PE(u)
+            for i, b_ in enumerate(seq):
+                pe.memory[BUF + i] = b_
+            ev, ret = pe.trace(fs, {"buf": BUF, "buf_size": size, "name_len_ret": OUT})
+            n += 1
+            if isinstance(ret, str):
+                und = und or "%s: %s" % (bytes(seq).hex(), ret)
+                continue
+            if ret == 0:
+                got = ev[-1][1].get("*(name_len_ret)") if ev else None
+                if got is None:
+                    und = und or "reported size not evaluable"
+                elif got > size:
+                    bad = bad or "for the %d-byte sequence %s it succeeds and reports size %d: the caller's cursor moves %d byte(s) past the data" % (
+                        size, bytes(seq).hex(), got, got - size)
+    desc = "SequenceOfLabelsGetSize never reports more bytes than it was given"
+    (rep.violated if bad else rep.undecided if und else rep.proved)("R-AGREE", fs, "reported-size<=buf_size", desc, bad or und or "%d sequences" % n)
+    bad = und = None
+    m = 0
+    for size in (1, 2, 3, 4):
+        for seq in itertools.product(classes, repeat=size):
+            for cap in range(1, size + 2):
+                pe = r_stride.PE(u)
+                for i, b_ in enumerate(seq):
+                    pe.memory[BUF + i] = b_
+                ev, ret = pe.trace(ft, {"buf": BUF, "buf_size": size, "name": NAME, "name_buf_size": cap, "name_len_ret": 0})
+                m += 1
+                if isinstance(ret, str):
+                    und = und or "%s cap %d: %s" % (bytes(seq).hex(), cap, ret)
+                    continue
+                for e, b in ev:
+                    for x, _ in walk(e):
+                        lo = hi = None
+                        if x.get("k") == "bin" and x["op"] == "=" and core.strip_casts(x["x"]).get("k") == "un" and core.strip_casts(x["x"]).get("op") == "*":
+                            vs = pe.evals(core.strip_casts(x["x"])["e"], b, 0)
+                            if len(vs) == 1 and isinstance(vs[0][0], int):
+                                lo, hi = vs[0][0], vs[0][0] + 1
+                        if x.get("k") == "call" and x.get("fn") == "memcpy":
+                            v0, v2 = pe.evals(x["args"][0], b, 0), pe.evals(x["args"][2], b, 0)
+                            if len(v0) == 1 and len(v2) == 1 and isinstance(v0[0][0], int) and isinstance(v2[0][0], int) and v2[0][0] > 0:
+                                lo, hi = v0[0][0], v0[0][0] + v2[0][0]
+                        if lo is not None and not (NAME <= lo and hi <= NAME + cap) and NAME - 16 <= lo < NAME + 64:
+                            bad = bad or "sequence %s into a %d-byte name buffer: a store at name[%d..%d) (line %s)" % (
+                                bytes(seq).hex(), cap, lo - NAME, hi - NAME, x.get("ln"))
+    desc = "SequenceOfLabelsToDomainName stores only inside name[0 .. name_buf_size) for every capacity its precondition admits"
+    (rep.violated if bad else rep.undecided if und else rep.proved)("R-BOUND", ft, "name-stores", desc, bad or und or "%d (sequence, capacity) cases" % m)
+    return n + m
+
+
 def run(rep, tier):
     us = driver.load_units(specs())
     rep.use_units(us)
@@ -256,6 +322,7 @@ def run(rep, tier):
     nl = sum(locator_rule(rep, u) for u in us.values())
     rep.floor("validator/locator pairs", nl, 2)
     rep.floor("validator header reads", sum(validator_guard_rule(rep, u, lab) for lab, u in us.items()), 12)
+    rep.floor("label-sequence helper cases", label_helpers_rule(rep, us["proto/dns.h"]), 3000)
     # request line: the components returned are sub-spans of the target (rule lives in C20)
     from props import c20
     rep.floor("target component searches", c20.span_rule(rep, us["src/proto/http.c"]), 3)
